@@ -2,7 +2,8 @@
    [nd_watch] is the value held by the channel, [nd_prev] what the node recorded at its last
    publication, [nd_sends] the number of publications. *)
 From ChitchatModel Require Import Base SMap Ids Bytes Params NodeState Stream DeltaWire Message
-  Cluster FD Chitchat SMap_lemmas Cluster_lemmas Chitchat_lemmas.
+  Cluster FD Chitchat SMap_lemmas Cluster_lemmas Chitchat_lemmas
+  World Truth NodeTruth Weak Reach ReachFD.
 
 (* After every evaluation: what is recorded is exactly {live member (self included) that has a
    copy -> (its current max version, the extra predicate's verdict on it)} ... *)
@@ -52,3 +53,11 @@ Proof.
     congruence.
 Qed.
 Print Assumptions C13_publishes_iff_changed.
+
+(* over schedules: the premise of C13_watch_exact — the channel value lists exactly the recorded
+   members with a true verdict, with their recorded max versions — holds on every node in every
+   reachable state (only a liveness evaluation touches the channel and its record) *)
+Theorem C13_always_watch_shape : forall zc strict g, reachable zc strict g ->
+  forall a n, node_at g a = Some n -> watch_shape (nd_prev n) (nd_watch n).
+Proof. exact reachable_watch_shape. Qed.
+Print Assumptions C13_always_watch_shape.
